@@ -310,3 +310,28 @@ func (g *Graph) FindText(text []byte) []string {
 
 // U64 is a helper for hashing.
 func U64(b []byte) uint64 { return binary.BigEndian.Uint64(b) }
+
+// FindRegions returns the regions (to capacity) whose memory contains the secret.
+func (g *Graph) FindRegions(secret []byte) []Region {
+	var out []Region
+	forms := secretForms(secret)
+	for _, r := range g.Regions {
+		for _, f := range forms {
+			if len(f) >= 8 && bytes.Contains(r.Mem, f) {
+				out = append(out, r)
+				break
+			}
+		}
+	}
+	return out
+}
+
+// StillHolds reports whether mem still contains the secret in one of its storage forms.
+func StillHolds(mem, secret []byte) bool {
+	for _, f := range secretForms(secret) {
+		if len(f) >= 8 && bytes.Contains(mem, f) {
+			return true
+		}
+	}
+	return false
+}
